@@ -570,6 +570,10 @@ func ToEntry(n Node) (e *Entry) {
 	if e := ms.getEntryCache(n); e != nil {
 		return e
 	}
+	if !ms.startEntry(n) {
+		// We are already in the middle of converting n.
+		return newError(n, "%s %s refers to itself", n.Kind(), n.NName())
+	}
 	defer func() {
 		ms.setEntryCache(n, e)
 	}()
